@@ -281,6 +281,37 @@ def run_mc(spec, v):
     return {'nontrivial': nontrivial, 'labels': labels}
 
 
+def limit_cases(ctx):
+    """Definitions at the limits of the one-byte counts of the format:
+    numbers of control names around 255 (the most the description reader
+    accepts), names of parameters and definitions around 31 / 255 bytes."""
+    for n in (1, 2, 31, 32, 127, 128, 200, 254, 255):
+        for rate in ('kr', 'ir'):
+            params = [{'name': f'p{i}', 'default': float(i % 7),
+                       'rate': rate if i % 3 else 'kr'} for i in range(n)]
+            yield {'name': f'lim{n}', 'params': params,
+                   'nodes': [{'k': 'c', 'v': 0}, {'k': 'c', 'v': 440},
+                             {'k': 'u', 'cls': 'SinOsc', 'rate': 'ar',
+                              'args': [1, 0]}],
+                   'sinks': [{'cls': 'Out', 'rate': 'ar', 'bus': 0, 'x': 2}],
+                   'gen_labels': [f'controls_{n}']}
+    for ln in (1, 31, 32, 127, 128, 254, 255):
+        yield {'name': 'n' * ln,
+               'params': [{'name': 'q' * min(ln, 255), 'default': 0.5,
+                           'rate': 'kr'}],
+               'nodes': [{'k': 'c', 'v': 0}, {'k': 'c', 'v': 440},
+                         {'k': 'u', 'cls': 'SinOsc', 'rate': 'ar',
+                          'args': [1, 0]}],
+               'sinks': [{'cls': 'Out', 'rate': 'ar', 'bus': 0, 'x': 2}],
+               'gen_labels': [f'name_len_{ln}']}
+
+
+def run_limits(spec, v):
+    res = run_mc(spec, v)
+    res['nontrivial'] = True
+    return res
+
+
 def run_c01(spec, v):
     b, data, exc, where = compile_spec(spec, G.Builder, v)
     if exc is not None:
@@ -420,6 +451,7 @@ def stages(ctx):
               quick=40, thorough=300),
         Stage('c01', run_c01, graphgen.graph_spec(max_steps=20),
               quick=300, thorough=2000),
+        Stage('limits', run_limits, cases=limit_cases),
         Stage('invalid', run_invalid, st.fixed_dictionaries({
             'spec': mcgen.mc_spec(max_steps=6),
             'fault': st.sampled_from(FAULTS + sorted(BAD_VALUES)),
